@@ -10,7 +10,7 @@ VARIABLE x
 
 K_prefix == {<<>>, <<97>>, <<97, 98>>, <<97, 99>>, <<98>>}
 K_glob   == {<<42>>, <<97, 42>>, <<97, 63>>, <<91, 97, 93>>, <<97>>}
-K_edge   == {<<0>>, <<255>>, <<97, 0>>, <<97, 255>>, <<97>>}
+K_edge   == {<<255>>, <<97, 0>>, <<97, 255>>, <<98>>, <<97>>}
 V2 == {<<>>, <<1>>}
 BatchesG == {1}
 MaxOpsG == 2
